@@ -729,17 +729,17 @@ static int32_t tls13CheckHsState(ssl_t *ssl,
         return PS_SUCCESS;
     }
     /*
-      The server may send a NewSessionTicket at any time after
-      it has received the client's Finished message.
-      In our state machine, there are two allowed states for this:
-      - SSL_HS_DONE (after having received and sent Finished)
-      - SSL_HS_TLS_1_3_WAIT_FINISHED (after having sent our Finished,
-      but before having received the server Finished.)
+      NewSessionTicket is a post-handshake message: the server may send it
+      only after its own Finished, and our Finished is encoded as soon as
+      the server's has been parsed, so the only state in which it is legal
+      is SSL_HS_DONE. It must not be taken while we still wait for the
+      server Finished (SSL_HS_TLS_1_3_WAIT_FINISHED): the message sequence
+      would be illegal and the resumption master secret the ticket's PSK is
+      derived from does not exist yet.
     */
     else if (!MATRIX_IS_SERVER(ssl) &&
             msg == SSL_HS_NEW_SESSION_TICKET &&
-            (ssl->hsState == SSL_HS_DONE ||
-            ssl->hsState == SSL_HS_TLS_1_3_WAIT_FINISHED))
+            ssl->hsState == SSL_HS_DONE)
     {
         return PS_SUCCESS;
     }
@@ -1183,11 +1183,9 @@ static int32_t tls13ParseHandshakeMessage(ssl_t *ssl,
         /*
           Note: NST not included in the Transcript-Hash.
 
-          No state update after receiving NST, because:
-           - The server is allowed to send multiple NSTs.
-           - We are either already done with the handshake (SSL_HS_DONE)
-             or we still need to receive the server Finished
-             (SSL_HS_TLS_1_3_WAIT_FINISHED).
+          No state update after receiving NST: the server is allowed to
+          send multiple NSTs and we are already done with the handshake
+          (SSL_HS_DONE, enforced by tls13CheckHsState).
         */
         break;
     default:
